@@ -62,6 +62,11 @@ pub open spec fn fmt_tt(c: Config, t: TokenType, o: TokenType) -> bool {
         _ => o == t,
     }
 }
+// the identity of a token reference (tok_of, uninterpreted in prelude/fm_specs.rs: what the token denotes, trivia and spelling aside) is that of
+// its token, and tokens related by fmt_tt — the only rewrites format_token makes: `.5` -> `0.5`, quotes and escapes, comment text trimmed —
+// denote the same (definitional; used by the bridges of tools/bridge_links.py)
+pub proof fn axiom_tok_of_same_token(a: TokenReference, b: TokenReference) requires tr_token(a) == tr_token(b) ensures tok_of(a) == tok_of(b) { admit(); }
+pub proof fn axiom_tok_of_fmt(c: Config, a: TokenReference, b: TokenReference) requires fmt_tt(c, token_type_of(tr_token(a)), token_type_of(tr_token(b))) ensures tok_of(a) == tok_of(b) { admit(); }
 pub open spec fn is_comment_tt(t: TokenType) -> bool { t is SingleLineComment || t is MultiLineComment || t is Shebang }
 pub open spec fn is_line_comment_tt(t: TokenType) -> bool { t is SingleLineComment || t is Shebang }
 // whitespace the formatter itself creates: configured newline, configured indent, a run of spaces
